@@ -4,6 +4,7 @@ nested lambda), cached/uncached mask, and the history before the failing request
 fail / a failure caught by a formula / a success).  Oracle: depth-first simulation of the executing chain, line numbers
 known to the text generator."""
 from kit import *  # noqa
+use_formula_memo()
 
 N = 3
 KINDS = ["raise", "zerodiv", "none"]
